@@ -17,20 +17,20 @@ import (
 )
 
 type Engine struct {
-	RepoDir   string
-	SpecDir   string
-	Pkgs      []*packages.Package
-	Prog      *ssa.Program
-	SSAPkgs   map[string]*ssa.Package
-	Funcs     map[string]*ssa.Function // by fn.String()
-	CS        *ContractSet
-	Sentinels map[string]int // global var (pkgpath.name) -> constant id
-	SentUnexpEnd, SentModEnd int // ids [4096, SentUnexpEnd): the module's unexported sentinels; [SentUnexpEnd, SentModEnd): exported
-	GlobalIDs map[string]int
-	TimeoutMs int
-	mu        sync.Mutex
-	LoadMs    float64
-	Overlay   map[string][]byte
+	RepoDir                  string
+	SpecDir                  string
+	Pkgs                     []*packages.Package
+	Prog                     *ssa.Program
+	SSAPkgs                  map[string]*ssa.Package
+	Funcs                    map[string]*ssa.Function // by fn.String()
+	CS                       *ContractSet
+	Sentinels                map[string]int // global var (pkgpath.name) -> constant id
+	SentUnexpEnd, SentModEnd int            // ids [4096, SentUnexpEnd): the module's unexported sentinels; [SentUnexpEnd, SentModEnd): exported
+	GlobalIDs                map[string]int
+	TimeoutMs                int
+	mu                       sync.Mutex
+	LoadMs                   float64
+	Overlay                  map[string][]byte
 }
 
 func NewEngine(repo, specs string, timeoutMs int, overlay map[string][]byte) (*Engine, error) {
